@@ -127,6 +127,16 @@ func (a *Analyzer) checkDurability(n *nodeState, r *ev.Rec) {
 	if holders < majority(len(vs)) {
 		a.find("C06", "commit-without-durable-majority", fmt.Sprintf("commit-without-durable-majority:voters=%d", len(vs)), r.Q,
 			"leader %s advances its commit index to %d (term %d) while only %d of the %d voters of %s hold it durably (holders %v)", n.key, r.Idx, e.term, holders, len(vs), cfgString(cfg), who)
+		// the same fact seen from the membership properties
+		if !cfg.IsVoter(n.key.nid) {
+			a.find("C11", "non-voting-leader-counts-itself", "", r.Q, "leader %s is not a voter in %s but advances its commit index to %d with only %d of %d voters holding the entry (holders %v)", n.key, cfgString(cfg), r.Idx, holders, len(vs), who)
+		}
+		for i := n.commit + 1; i <= r.Idx; i++ {
+			if x, ok := n.log[i]; ok && x.typ == ev.TypConfig {
+				a.find("C08", "configuration-committed-without-majority", "", r.Q, "leader %s commits configuration entry %d while only %d of the %d voters of %s hold entry %d durably (holders %v)", n.key, i, holders, len(vs), cfgString(cfg), r.Idx, who)
+				break
+			}
+		}
 	}
 	if !cfg.IsVoter(n.key.nid) {
 		a.stat("commits-by-non-voting-leader")
@@ -291,6 +301,14 @@ func (a *Analyzer) checkLabel(n *nodeState, idx, term uint64, cfg *ev.Cfg, seq i
 	for i, ci := range cm {
 		if ci.typ == ev.TypConfig && i <= idx && i > newest {
 			newest = i
+		}
+	}
+	if cfg != nil && cfg.Index > idx && !a.Universe {
+		// a membership newer than the snapshot index is tolerable only if it is
+		// a committed one (an uncommitted entry may be truncated: the label would
+		// then name a membership that never existed)
+		if ci := cm[cfg.Index]; ci == nil || ci.typ != ev.TypConfig || ci.term != cfg.Term {
+			a.find("C12", "label-membership-not-committed", "", seq, "%s: snapshot (%s) at index %d is labelled with membership %s, a configuration entry that is not committed", n.key, what, idx, cfgString(cfg))
 		}
 	}
 	if newest > 0 && cfg != nil {
